@@ -152,6 +152,9 @@ func (t *termer) term(v ssa.Value, ctx *Ctx) *Term {
 		}
 		return mk("field", name, v, ctx, base)
 	case *ssa.Field:
+		if r := t.recordField(x.X, x.Field, x.Type(), x, ctx); r != nil {
+			return r
+		}
 		st := derefStruct(x.X.Type())
 		name := fmt.Sprintf("#%d", x.Field)
 		if st != nil && x.Field < st.NumFields() {
@@ -415,6 +418,15 @@ func (t *termer) load(addr ssa.Value, v ssa.Value, ctx *Ctx) *Term {
 		return mk("freevar", a.Name(), v, ctx)
 	case *ssa.Global:
 		return mk("global", globalName(a), v, ctx)
+	}
+	if fa, ok := addr.(*ssa.FieldAddr); ok {
+		if al, ok := fa.X.(*ssa.Alloc); ok {
+			if whole := structInit(al, fa.Field); whole != nil {
+				if r := t.recordField(whole, fa.Field, v.Type(), v, ctx); r != nil {
+					return r
+				}
+			}
+		}
 	}
 	at := t.term(addr, ctx)
 	switch at.Op {
@@ -874,4 +886,106 @@ func trivialGetterValue(fn *ssa.Function) ssa.Value {
 		}
 	}
 	return nil
+}
+
+// recordField: a field of the struct a repository helper returns, where the struct type is an
+// unexported result bundle of the helper's package and every accepting return of the helper hands
+// back a literal: the field stands for what the literals put into it (a phi over the returns),
+// rendered with the helper's parameters bound to this call. "last.headerHash" after
+// "last, err := m.loadLastBlockInfo(ctx, h)" is then the same term as the local it replaced.
+func (t *termer) recordField(sv ssa.Value, field int, ftype types.Type, origin ssa.Value, ctx *Ctx) *Term {
+	tuple, idx := sv, 0
+	if ex, ok := sv.(*ssa.Extract); ok {
+		tuple, idx = ex.Tuple, ex.Index
+	}
+	call, ok := tuple.(*ssa.Call)
+	if !ok {
+		return nil
+	}
+	callee := call.Common().StaticCallee()
+	if callee == nil || callee.Blocks == nil || (ctx != nil && ctx.has(callee)) {
+		return nil
+	}
+	pk := fnPkg(callee)
+	nt, isNamed := sv.Type().(*types.Named)
+	if pk == nil || !isNamed || nt.Obj().Exported() || nt.Obj().Pkg() != pk.Pkg || !strings.HasPrefix(pk.Pkg.Path(), rootPath) {
+		return nil
+	}
+	d := 0
+	if ctx != nil {
+		d = ctx.Depth + 1
+	}
+	if d >= 6 {
+		return nil
+	}
+	cctx := &Ctx{Parent: ctx, Site: call, Fn: callee, Depth: d}
+	var alts []*Term
+	seen := map[string]bool{}
+	for _, b := range callee.Blocks {
+		ret, ok := b.Instrs[len(b.Instrs)-1].(*ssa.Return)
+		if !ok || idx >= len(ret.Results) {
+			continue
+		}
+		if n := len(ret.Results); n > 1 && classifyReturn(ret, n-1) == rcA {
+			continue // an error return: the caller does not use the bundle
+		}
+		ld, ok := spilledResult(ret, idx).(*ssa.UnOp)
+		if !ok || ld.Op != token.MUL {
+			return nil
+		}
+		al, ok := ld.X.(*ssa.Alloc)
+		if !ok {
+			return nil
+		}
+		var val ssa.Value
+		for _, r := range *al.Referrers() {
+			fa, isFA := r.(*ssa.FieldAddr)
+			if !isFA || fa.Field != field {
+				continue
+			}
+			for _, rr := range *fa.Referrers() {
+				if st, isS := rr.(*ssa.Store); isS && st.Addr == ssa.Value(fa) {
+					if val != nil {
+						return nil
+					}
+					val = st.Val
+				}
+			}
+		}
+		var a *Term
+		if val == nil {
+			a = mk("const", zeroName(ftype), nil, cctx)
+		} else {
+			a = t.term(val, cctx)
+		}
+		if k := a.String(); !seen[k] {
+			seen[k] = true
+			alts = append(alts, a)
+		}
+	}
+	if len(alts) == 0 {
+		return nil
+	}
+	sort.Slice(alts, func(i, j int) bool { return alts[i].String() < alts[j].String() })
+	if len(alts) == 1 {
+		return alts[0]
+	}
+	return mk("phi", "φ", origin, ctx, alts...)
+}
+
+func zeroName(tp types.Type) string {
+	switch u := tp.Underlying().(type) {
+	case *types.Basic:
+		switch {
+		case u.Info()&types.IsString != 0:
+			return `""`
+		case u.Info()&types.IsBoolean != 0:
+			return "false"
+		case u.Info()&types.IsNumeric != 0:
+			return "0"
+		}
+	case *types.Struct, *types.Array:
+		return "zero:" + types.TypeString(tp, shortQual)
+	}
+	return "nil"
 }
